@@ -451,7 +451,7 @@ func checkC01(c *Ctx, r *Report) {
 		r6.guard(f, "return dialled conn", rets, "conn.RemotePeer()==p", eqEdge(rp, pv, true), nil)
 		// mismatch edge closes
 		var mism []CFGEdge
-		for _, b := range f.Blocks {
+		for _, b := range blocksDeep(f) {
 			for s := range b.Succs {
 				if eqEdge(rp, pv, false)(b, s) {
 					mism = append(mism, CFGEdge{b, s})
@@ -560,7 +560,7 @@ func checkC01(c *Ctx, r *Report) {
 			return isLoadOfField(quicP + ".conn.remotePeerID")(strip(v))
 		}
 		what := "the peer being dialed (in transport.holePunch) or the accepted connection's authenticated remotePeerID"
-		allInstrs(f, func(in ssa.Instruction) {
+		allInstrsIn(f, func(in ssa.Instruction) {
 			var key ssa.Value
 			switch x := in.(type) {
 			case *ssa.Lookup:
